@@ -60,6 +60,10 @@ def run(F, rep, tier):
     containers.frame_rule(F, rep, M)
     containers.helpers_rule(F, rep)
     containers.port_tables(F, rep)
+    # "for every frame history": the export hands the columns to StructArray::new, which requires children of equal length —
+    # the builder must keep every live column balanced (one push per row, null-padding included) for the export to exist at all
+    M2b = model.Model(F, rep, want=("with_capacity", "push_null", "read_push"))
+    model.rule_L2(rep, M2b)
     # positive controls
     import common
     M2 = copy.copy(M)
